@@ -39,13 +39,14 @@ func (o Op) String() string {
 // Script with its configuration
 type Script struct {
 	Hevc, Gop bool
+	MaxQ      int // 0 = the source's limit; otherwise every consumption's limit is overridden after its join
 	Ops       []Op
 }
 
 // Line renders the driver line: every P op carries the actual RTP payload bytes
 func (sc Script) Line(tag string) string {
 	var b strings.Builder
-	fmt.Fprintf(&b, "%s script %s %s", tag, b01(sc.Hevc), b01(sc.Gop))
+	fmt.Fprintf(&b, "%s script %s %s %d", tag, b01(sc.Hevc), b01(sc.Gop), sc.MaxQ)
 	uid := uint32(0)
 	for _, o := range sc.Ops {
 		switch o.Code {
@@ -96,6 +97,9 @@ func (sc Script) RunImpl(expected []string) (int, string, string) {
 				r.PanicAt = o.Panic
 				recs[o.Name] = r
 				w.Join(r, o.Gop)
+				if sc.MaxQ > 0 {
+					w.S.VerifSetMaxQLen(r.CID, sc.MaxQ)
+				}
 			}
 		case 'S':
 			if r := recs[o.Name]; r != nil {
@@ -129,6 +133,9 @@ func (sc Script) RunImpl(expected []string) (int, string, string) {
 // "mixed" (everything), "join" (joins at every prefix), "backlog" (long runs with a stalled consumer)
 func GenScript(r *hlib.Rng, profile string, maxOps int) Script {
 	sc := Script{Hevc: r.Chance(40), Gop: r.Chance(65)}
+	if profile == "backlog" || r.Chance(25) {
+		sc.MaxQ = 2 + r.Intn(9)
+	}
 	n := 3 + r.Intn(maxOps)
 	names := 0
 	live := []int{}
@@ -167,7 +174,7 @@ func GenScript(r *hlib.Rng, profile string, maxOps int) Script {
 	for i := 0; i < n; i++ {
 		x := r.Intn(100)
 		switch {
-		case profile == "classify" && x < 55:
+		case (profile == "classify" && x < 55) || (profile == "backlog" && x < 30):
 			sc.Ops = append(sc.Ops, Op{Code: 'P', Raw: GenRaw(r, sc.Hevc)})
 		case x < 55 || (profile == "backlog" && x < 85):
 			sc.Ops = append(sc.Ops, Op{Code: 'P', Kind: pubKind(), Extra: r.Intn(6)})
